@@ -4,7 +4,10 @@
 A replay file of a failure found by the input-representation layer carries `_input_variant` records (function, kind, the call as
 the harness made it).  This re-runs each recorded call twice - on the float64 C-ordered arrays as written and on the same values in
 the recorded storage (common.apply_variant) - and prints both outcomes; exit code 1 when they differ.  (./check CXX --replay <file>
-does the same after the property's own replay.)  Given known_findings.d/variants.json it runs every witness script instead."""
+does the same after the property's own replay.)  A record of kind `after-decoy` (call-sequence mode) is replayed as the recorded SEQUENCE on a
+newly imported bct - decoy call on a private buffer B, B[...] = A, the judged call on B, second decoy call - next to the single call on A on
+another newly imported bct; exit code 1 when the judged call differs from the single call or the returned object changes during the second decoy
+call.  Given known_findings.d/variants.json it runs every witness script instead."""
 import sys, os, json, subprocess
 sys.path.insert(0, os.path.join(os.path.dirname(os.path.dirname(os.path.abspath(__file__))), 'harness'))
 import common
